@@ -263,3 +263,42 @@ Definition cell_typed (T : copytable) (h : heap) (c : cell) : bool :=
   else true.
 
 Definition typed_b (T : copytable) (h : heap) : bool := forallb (cell_typed T h) h.
+
+(* ------------------------------------------------------------------ static side condition on the generated table *)
+(* Model.copy is safe when every attribute that a class initialises with a mutable container is either one of
+   the re-linked attributes (excluded from the generic loop and rebuilt by the code below it) or deep-copied,
+   the context stack is not shared while the objects are copied, and every container attribute of the model
+   itself that the first loop copies by reference is overwritten later. *)
+Definition is_deep (m : mode) : bool := match m with Deep => true | _ => false end.
+
+Definition ktable_safe (attrs : list (string * akind)) (relinked : list string) (kt : ktable) : bool :=
+  forallb (fun nk => negb (is_container (snd nk)) || mems (fst nk) (kt_excluded kt) || is_deep (mode_of kt (fst nk))) attrs
+  && forallb (fun n => mems n relinked) (kt_excluded kt)
+  && is_deep (kt_default kt).                 (* attributes the class does not declare are deep-copied too *)
+
+Definition pending (T : copytable) : list string :=
+  filter (fun n => negb (mems n (ct_model_excluded T)))
+         (map fst (filter (fun nk => is_container (snd nk)) (ct_attrs_model T))).
+
+Definition overwritten (T : copytable) : list string :=
+  ["_solver"; "metabolites"; "genes"; "reactions"; "groups"; "_contexts"]
+    ++ map fst (filter (fun nm => is_deep (snd nm)) (ct_model_explicit T)).
+
+Definition read_names : list string :=
+  ["_id"; "_reaction"; "_metabolites"; "_members"; "_genes"; "_gpr"; "_contexts"; "_model"].
+
+Definition table_safe (T : copytable) : bool :=
+  ktable_safe (ct_attrs_met T) ["_model"; "_reaction"] (ct_met T)
+  && ktable_safe (ct_attrs_gene T) ["_model"; "_reaction"] (ct_gene T)
+  && ktable_safe (ct_attrs_rxn T) ["_model"; "_metabolites"; "_genes"] (ct_rxn T)
+  && ktable_safe (ct_attrs_group T) ["_model"; "_members"] (ct_group T)
+  && forallb (fun n => mems n (overwritten T)) (pending T)
+  && forallb (fun n => negb (mems n read_names)) (pending T)
+  && mems "_contexts" (ct_model_excluded T)
+  && forallb (fun nm => is_deep (snd nm)) (ct_model_explicit T)
+  && forallb (fun n => mems n (ct_repoint T)) ["reactions"; "metabolites"; "genes"; "groups"]
+  && ct_add_copies T && ct_sub_copies T.
+
+(* executable edge test, for concrete witnesses *)
+Definition edge_b (h : heap) (a b : addr) : bool :=
+  match get h a with Some c => memn b (crefs c) | None => false end.
